@@ -128,12 +128,17 @@ def step_budget(nbytes):
 
 
 hang_count = 0
+_hang_confirmed = False  # once one wall-clock hang has been confirmed in this worker, later ones are taken at face value
 HANG_LIMIT = int(os.environ.get("VERIF_HANG_LIMIT", "3"))
 
 
-def run_parse(text, parser=None, want_tree=True, want_config=False, via_file=None, keep_parser=False):
-    """Run Parser.parse(text) on the implementation under test."""
-    global hang_count
+def run_parse(text, parser=None, want_tree=True, want_config=False, via_file=None, keep_parser=False, _confirm=False):
+    """Run Parser.parse(text) on the implementation under test.
+
+    A hang is decided by the deterministic step budget; the wall-clock watchdog only exists for time spent inside one regex match.
+    Because wall-clock time depends on the load of the machine, a watchdog hit is confirmed by running the same input once more with
+    a five times longer limit before it is reported."""
+    global hang_count, _hang_confirmed
     ns = load()
     from . import canon
 
@@ -151,8 +156,15 @@ def run_parse(text, parser=None, want_tree=True, want_config=False, via_file=Non
     budget = step_budget(nbytes)
     obs = Obs()
     state = {"steps": 0, "config": None}
-    lexer = parser.lexer
-    orig_scan = type(lexer).scan
+    lexer = getattr(parser, "lexer", None)
+    if lexer is None or not callable(getattr(type(lexer), "scan", None)):
+        # no seam to count tokens at (a refactored tree): the execution is still bounded by the watchdog
+        class _NoLexer:
+            pass
+        lexer = _NoLexer()
+        orig_scan = None
+    else:
+        orig_scan = type(lexer).scan
 
     def counted(text_):
         for tok in orig_scan(lexer, text_):
@@ -163,10 +175,11 @@ def run_parse(text, parser=None, want_tree=True, want_config=False, via_file=Non
         if want_config:
             state["config"] = canon.parser_config(parser, ns)
 
-    lexer.scan = counted
+    if orig_scan is not None:
+        lexer.scan = counted
     # stale attributes from an earlier parse must not be mistaken for this one's
     try:
-        with watchdog(max(_WATCHDOG_S, nbytes / 40000.0)):
+        with watchdog(max(_WATCHDOG_S, nbytes / 40000.0) * (5 if _confirm else 1)):
             if via_file is not None:
                 ret = parser.parse_file(via_file)
             else:
@@ -195,6 +208,11 @@ def run_parse(text, parser=None, want_tree=True, want_config=False, via_file=Non
             del lexer.scan
         except AttributeError:
             pass
+    if obs.verdict == "HANG" and obs.exc == "watchdog" and _confirm:
+        _hang_confirmed = True
+    if obs.verdict == "HANG" and obs.exc == "watchdog" and not _confirm and not _hang_confirmed:
+        hang_count -= 1
+        return run_parse(text, parser=parser, want_tree=want_tree, want_config=want_config, via_file=via_file, keep_parser=keep_parser, _confirm=True)
     obs.steps = state["steps"]
     obs.config = state["config"]
     if obs.verdict == "ACC":
